@@ -212,7 +212,7 @@ func runSub(t *testing.T, cfg subCfg) sim.Result {
 		c := &subScn{s: s, cfg: cfg, pipes: map[string]*vt.Pipe{}}
 		s.Net.Decode = subDecode
 		c.proto = sub.NewProtocol()
-		rp := &hx.RecProto{Protocol: c.proto, Rec: s.Rec}
+		rp := &hx.RecProto{Protocol: c.proto, Rec: s.Rec, Early: true}
 		c.sock = protocol.MakeSocket(rp)
 		hx.Hook(c.sock, s.Rec, nil)
 		must := func(err error) {
